@@ -671,6 +671,14 @@ func checkC04(p *Prog, rp *Report) {
 }
 
 func c04Err(p *Prog, rp *Report, parse *ssa.Function) {
+	{
+		nm := rp.Rule("C04-NAMES", "package, architecture and profile names of 15 to 257 bytes are accepted and stored whole", 1)
+		pos := ""
+		if fn := p.Func("dependency", "Parse"); fn != nil {
+			pos = p.Pos(fn.Pos())
+		}
+		fillProblems(nm, "dependency.Parse", pos, longNameRows(p), "15 lengths around 16, 32, 64, 128 and 256 bytes: the field parses to the four alternatives with the long names intact")
+	}
 	er := rp.Rule("C04-ERR", "errors in the parser's call tree are returned", 1)
 	for _, f := range reachableRepoFuncs(parse) {
 		for _, s := range errDiscipline(f, func(n string, c *ssa.Call) bool {
